@@ -127,6 +127,15 @@ StopCompletes == (st.stopped /\ ClientsConnected(st) = {} /\ Stuck(st) = {}) ~> 
 
 Leaf == st.lines = MaxLines \/ st.task = "done"
 PrintLeaf == Leaf => PrintT("SCRIPT" \o ToJson([hist |-> hist]))
+(* a deterministic 1-in-K sample of the behaviours (printing two million of them only to draw 900 costs minutes) *)
+ClsCode(c) == CASE c = "query" -> 1 [] c = "mutate" -> 2 [] c = "await" -> 3 [] c = "help" -> 4 [] c = "unknown" -> 5
+                [] c = "badarg" -> 6 [] c = "convfail" -> 7 [] c = "blank" -> 8 [] c = "forever" -> 9 [] OTHER -> 10
+ActCode(a) == CASE a.a = "serve" -> 1 [] a.a = "connect" -> 2 + a.s [] a.a = "handshake" -> 5 + a.s
+                [] a.a = "send" -> 11 + 13 * ClsCode(a.cls) + a.s [] a.a = "eof" -> 160 + a.s [] a.a = "read" -> 170 + a.s
+                [] a.a = "complete" -> 180 + a.s [] a.a = "stop" -> 190 [] OTHER -> 191
+RECURSIVE HashH(_, _, _)
+HashH(h, i, acc) == IF i > Len(h) THEN acc ELSE HashH(h, i + 1, (acc * 31 + ActCode(h[i]) * (i + 7)) % 1000003)
+PrintLeafSampled(k) == (Leaf /\ HashH(hist, 1, 17) % k = 0) => PrintT("SCRIPT" \o ToJson([hist |-> hist]))
 
 (***************************************************************************)
 (* The monitor over records of real runs.                                  *)
@@ -219,17 +228,23 @@ SockMon(g0, e) ==
          MOut([g EXCEPT !.st = DoServe([g.st EXCEPT !.stopped = FALSE], e.tr)],
               Chk("C19.serve", -1, e.ok /\ e.prompt /\ e.serving /\ (e.tr = "unix" => e.sock)), Hit("C19.serve", TRUE))
     [] e.e = "connected" ->
-         MOut([g EXCEPT !.st = DoHandshake(DoConnect(g.st, e.s), e.s)],
+         MOut([g EXCEPT !.st = IF Has(e, "hs") /\ ~e.hs THEN DoConnect(g.st, e.s) ELSE DoHandshake(DoConnect(g.st, e.s), e.s),
+                        !.sentk[e.s] = 0],
               IF stopped THEN {} ELSE Chk("C19.connect", e.s, e.ok),
               Hit("C19.connect", ~stopped) \cup Hit("C19.cli", e.cli) \cup Hit("C19.concurrent", Cardinality(Open(g.st)) >= 1))
     [] e.e = "reply" ->
          (* a client - raw or the bundled CLI - is served: it gets a reply, and for the concrete lines whose method call
             the harness can make itself, exactly the reply that call gives (the reply rule of C17, now over a real transport) *)
-         MOut(g, (IF stopped THEN {} ELSE Chk("C19.reply", e.s, e.got) \cup Chk("C19.same", e.s, ~e.got \/ e.same))
+         (* after the stop a session that had been named and was waiting for its next line still answers that one line
+            (the code leaves its loop only after it); what the client sends later goes to a closed connection *)
+         MOut([g EXCEPT !.sentk[e.s] = IF stopped THEN @ + 1 ELSE @],
+                 (IF stopped /\ ~(g.sentk[e.s] = 0 /\ g.st.ss[e.s].ph = "named") THEN {}
+                  ELSE Chk("C19.reply", e.s, e.got) \cup Chk("C19.same", e.s, ~e.got \/ e.same))
                  \cup (IF e.cls \in Malformed THEN Chk("C19.pool", e.s, e.pobs = e.before) ELSE {}),
               Hit("C19.reply", ~stopped) \cup Hit("C19.concurrent", Cardinality(Open(g.st)) >= 2))
     [] e.e = "handshook" ->      \* a raw client that had connected without a handshake sends it later (handshakes may overlap)
-         MOut(g, IF stopped THEN {} ELSE Chk("C19.connect", e.s, e.ok), Hit("C19.overlap", Cardinality(Open(g.st)) >= 2))
+         MOut([g EXCEPT !.st = IF stopped THEN @ ELSE DoHandshake(@, e.s)],
+              IF stopped THEN {} ELSE Chk("C19.connect", e.s, e.ok), Hit("C19.overlap", Cardinality(Open(g.st)) >= 2))
     [] e.e = "sentwait" ->       \* the client sent a command whose wait does not end (until-closed); no reply is awaited
          MOut([g EXCEPT !.st.ss[e.s].ph = "stuck"], {}, Hit("C19.waiting", TRUE))
     [] e.e = "disconnected" ->
